@@ -24,6 +24,7 @@ from threading import RLock
 from types import MappingProxyType
 
 from synced_collections.backends.collection_json import BufferedJSONAttrDict
+from synced_collections.data_types import SyncedCollection
 
 from ._config import (
     _Config,
@@ -105,6 +106,22 @@ def _split_and_print_progress(iterable, num_chunks=10, write=None, desc="Progres
         write(f"{desc}100%")
     else:
         yield iterable
+
+
+def _copy_statepoint(value):
+    """Copy a state point given by the caller, so that it is independent of the caller's data.
+
+    Synced collections (a job's state point, values taken from a document) are live views
+    of a file and even their deep copies follow it: they are replaced by their data. The
+    read-only view handed out as Job.cached_statepoint cannot be deep-copied itself.
+    """
+    if isinstance(value, SyncedCollection):
+        return value()
+    if isinstance(value, (dict, MappingProxyType)):
+        return {key: _copy_statepoint(item) for key, item in value.items()}
+    if type(value) in (list, tuple):
+        return type(value)(_copy_statepoint(item) for item in value)
+    return deepcopy(value)
 
 
 class _ProjectConfig(_Config):
@@ -531,11 +548,7 @@ class Project:
             raise ValueError("Either statepoint or id must be provided, but not both.")
         elif statepoint is not None:
             # Second best case (Job will update self._sp_cache on init)
-            if isinstance(statepoint, MappingProxyType):
-                # The read-only view handed out as Job.cached_statepoint cannot be
-                # deep-copied itself.
-                statepoint = dict(statepoint)
-            return Job(project=self, statepoint=deepcopy(statepoint))
+            return Job(project=self, statepoint=_copy_statepoint(statepoint))
         try:
             # Optimal case (id is in the state point cache)
             return Job(project=self, statepoint=self._sp_cache[id], id_=id)
